@@ -54,7 +54,28 @@ def subst(t, table):
     return (k,) + tuple(subst(x, table) for x in t[1:])
 
 
-def build(types, defined=()):
+CRATE_OF = {"PathBuf": "std::path::", "OsString": "std::ffi::", "Path": "std::path::", "Duration": "std::time::", "Uuid": "uuid::", "DateTime": "chrono::", "Utc": "chrono::",
+            "NaiveDate": "chrono::naive::", "Decimal": "rust_decimal::", "Url": "url::", "Arc": "std::sync::", "Box": "std::boxed::"}
+
+
+def qualify_mapped(text, table):
+    """the foreign mapped names written the way code that does not import them writes them: through their crate path
+    (std::path::PathBuf, chrono::DateTime<chrono::Utc>); a path names the same type, so the mapping applies all the same"""
+    import re
+    heads = set()
+    for n in table:
+        heads |= set(re.findall(r"[A-Za-z_][A-Za-z0-9_]*", n))
+    for h in sorted(heads, key=len, reverse=True):
+        if h in ("str", "u64", "Left", "Right", "OrderTag"):
+            continue
+        text = re.sub(r"(?<!struct )(?<!enum )(?<![A-Za-z0-9_:])%s(?![A-Za-z0-9_])" % re.escape(h), CRATE_OF.get(h, "ext_crate::v1_types::") + h, text)
+    return text
+
+
+def build(types, defined=(), qualified=False, table=None):
+    if qualified and not defined and table:
+        files = build(types, defined)
+        return [(files[0][0], qualify_mapped(files[0][1], table))]
     """defined: mapped names that the project ALSO defines as serde structs (a project type with a custom wire format, mapped to
     what it looks like in JSON); all other mapped names are foreign types, as with PathBuf / Uuid in real use"""
     files = c05.build_batch(types, external=[n for n in NAMES if n not in defined])
@@ -100,7 +121,7 @@ def is_probe_decl(chunk, mapped=()):
 
 def run_case(a):
     cli, table, types, mode, defined = a[:5]
-    files = build(types, defined)
+    files = build(types, defined, qualified=len(a) > 6 and a[6], table=table)
     ga = proj.generate(cli, files, mode=mode, config={"type_mappings": table}, tag="c18a")
     gb = proj.generate(cli, files, mode=mode, tag="c18b")
     try:
@@ -354,6 +375,8 @@ def run(tier):
         simple = tuple(n for n in table if "<" not in n)
         for mode in ("none", "zod"):
             jobs.append((cli, table, ets, mode, (), drv if len(jobs) % 3 == 0 else None))
+            if tier == "thorough" or len(jobs) % 3 == 2:
+                jobs.append((cli, table, ets, mode, (), None, True))      # the mapped names written through their crate paths
             # the same table over a project that itself defines the mapped names (every second table in the quick tier)
             if simple and (tier == "thorough" or len(jobs) % 4 == 1):
                 jobs.append((cli, table, ets, mode, simple, drv))
@@ -414,5 +437,5 @@ def run(tier):
     rule = ("a case is (mapping table, mode, type expression holding a mapped name at some constructor position), placed at the five sites of one "
             "project that also contains unrelated and near-miss-named declarations; each project is generated with and without the table; "
             "non-trivial = the mapped name sits below at least one constructor; distinct by the tuple")
-    return v.finish(rule, assumptions=["only the unqualified spelling written in the mapping is generated (DESIGN 4.2)",
+    return v.finish(rule, assumptions=["the mapping table is written with unqualified names; the sources also spell the mapped names through their crate paths (DESIGN 4.2)",
                                        "positions whose output equals a recorded C05 defect model (z.set, Result union, unparenthesised array element) are not mapping faults"])
